@@ -109,6 +109,13 @@ pub fn tkey() -> u64 {
 
 pub const INJECTED_MSG: &str = "vh-injected-fault";
 
+/// a non-string panic payload
+#[derive(Debug)]
+pub struct InjectedFault {
+    pub stage: u8,
+    pub id: u64,
+}
+
 impl Ctx {
     pub fn new(case: Case) -> Box<Ctx> {
         let epoch = EPOCH.fetch_add(1, Relaxed);
@@ -278,7 +285,13 @@ impl Ctx {
                         self.active.fetch_sub(1, Relaxed);
                         self.injected.fetch_add(1, Relaxed);
                         self.log(slot, K_RET, stage, a, u64::MAX - 7);
-                        std::panic::panic_any(INJECTED_MSG);
+                        // vary the payload type: a library must not depend on the panic payload being a string
+                        match (self.case.seed >> 7) % 4 {
+                            0 => std::panic::panic_any(INJECTED_MSG),
+                            1 => panic!("{} at {:#x}", INJECTED_MSG, a),
+                            2 => std::panic::panic_any(InjectedFault { stage, id: a }),
+                            _ => std::panic::panic_any(Box::new(0x5eed_u64)),
+                        }
                     }
                 }
             }
